@@ -8,6 +8,7 @@ import (
 	"fmt"
 	"hash/fnv"
 	"reflect"
+	"slices"
 	"strconv"
 	"strings"
 	"sync"
@@ -114,11 +115,16 @@ func (d *drv[T]) Shard() int {
 
 // optCache: applications keep option values (and whole option slices) around and pass the same ones
 // to many Subscribe calls; so does the harness for every filterless option combination.
-var optCache sync.Map // [3]bool -> []ebu.SubscribeOption
+var optCache sync.Map // [4]bool -> []ebu.SubscribeOption
 
 func (d *drv[T]) opts(o SubOpts) []ebu.SubscribeOption {
+	// options are independent of each other: for half of the event types they are given in the
+	// reverse order (Sequential before Async before Once)
+	h := fnv.New32a()
+	h.Write([]byte(d.name))
+	reversed := h.Sum32()%2 == 1
 	if o.Filter == nil {
-		key := [3]bool{o.Once, o.Async, o.Seq}
+		key := [4]bool{o.Once, o.Async, o.Seq, reversed}
 		if v, ok := optCache.Load(key); ok {
 			return v.([]ebu.SubscribeOption)
 		}
@@ -131,6 +137,9 @@ func (d *drv[T]) opts(o SubOpts) []ebu.SubscribeOption {
 		}
 		if o.Seq {
 			shared = append(shared, ebu.Sequential())
+		}
+		if reversed {
+			slices.Reverse(shared)
 		}
 		v, _ := optCache.LoadOrStore(key, shared)
 		return v.([]ebu.SubscribeOption)
